@@ -165,13 +165,17 @@ where
             crate::oracle::check_accounting(ctx, st.as_ref().unwrap(), phase).await;
         }
     }
+    // after a dropped future, half of the time the next operation starts at once: no queries and
+    // no think time in between, so it meets the detached work of the cancelled one
+    let mut chase = false;
     for op in ops.iter() {
         if world.kill_flag.get() {
             return Some(SessionOutcome::Killed);
         }
-        if op.think_ms > 0 {
+        if op.think_ms > 0 && !chase {
             tokio::time::sleep(Duration::from_millis(op.think_ms)).await;
         }
+        chase = false;
         if let OpKind::Restart { lazy, damage } = &op.kind {
             let storage = st.take().unwrap();
             match restart_once::<K>(ctx, storage, si, op.uid, *lazy, damage, true).await {
@@ -284,6 +288,11 @@ where
         }
         if ctx.aborted.get() {
             break;
+        }
+        if matches!(op.kind, OpKind::Cancelled { .. }) && crate::rng::mix_all(&[plan.sched.seed, 11, op.uid as u64]) % 2 == 0 {
+            world.probe("next_operation_chases_cancelled_one");
+            chase = true;
+            continue;
         }
         if plan.check_each_step && !matches!(op.kind, OpKind::Read { .. } | OpKind::Contains { .. } | OpKind::ReadAll { .. } | OpKind::ReadAllDel { .. } | OpKind::ReadWith { .. } | OpKind::CheckFilters { .. }) {
             let phase = base_phase(&plan, si).unwrap_or(if maintenance_seen { "maintenance" } else { "step" });
